@@ -97,6 +97,10 @@ def selCell (c r : Bytes) (p : Parsed) : Bool := p.k1 == c && p.k2 == r
 def selCol (c : Bytes) (p : Parsed) : Bool := p.k1 == c
 def selRow (r : Bytes) (p : Parsed) : Bool := p.k2 == r
 def selAll (_ : Parsed) : Bool := true
+/-- counters: samples of key `k` / of key `k` and sub-key `s` / of sub-key `s`. -/
+def selKey (k : Bytes) (p : Parsed) : Bool := p.k1 == k
+def selKeySub (k s : Bytes) (p : Parsed) : Bool := p.k1 == k && p.k2 == s
+def selSub (s : Bytes) (p : Parsed) : Bool := p.k2 == s
 
 /-- `m` is the minimum of the cell values over the full rows × columns grid
 (absent cells are sums over nothing, i.e. 0); `0` for an empty grid. -/
